@@ -63,39 +63,46 @@ package wkbcommon
 //@ func readLineString(r, order, buf)
 //@   requires r != nil && len(buf) == 8
 //@   modifies buf[*]
+//@   loop 1: invariant fresh(result) && result != nil
 //@   opt alloc=MaxPointsAlloc
 
 //@ func readMultiPoint(r, order, buf)
 //@   requires r != nil && len(buf) == 8
 //@   modifies buf[*]
+//@   loop 1: invariant fresh(result) && result != nil
 //@   opt alloc=MaxPointsAlloc
 
 //@ func readMultiLineString(r, order, buf)
 //@   requires r != nil && len(buf) == 8
 //@   modifies buf[*]
+//@   loop 1: invariant fresh(result) && result != nil
 //@   opt alloc=MaxMultiAlloc
 
 //@ func readPolygon(r, order, buf)
 //@   requires r != nil && len(buf) == 8
 //@   modifies buf[*]
+//@   loop 1: invariant fresh(result) && result != nil
 //@   opt alloc=MaxMultiAlloc
 
 //@ func readMultiPolygon(r, order, buf)
 //@   requires r != nil && len(buf) == 8
 //@   modifies buf[*]
+//@   loop 1: invariant fresh(result) && result != nil
 //@   opt alloc=MaxMultiAlloc
 
 //@ func readCollection(r, order, buf)
 //@   requires r != nil && len(buf) == 8
 //@   modifies buf[*]
 //@   opt alloc=MaxMultiAlloc
-//@   loop 1: invariant d != nil && d.r == r
+//@   loop 1: invariant d != nil && d.r == r && fresh(result) && result != nil
 
 // ---- one-shot byte decoders: how much of the input a successful decode accounts for
 // (this is what keeps the `data = data[...:]` advances of the callers in range)
 
 //@ func unmarshalPoints(order, data) (result, err)
 //@   modifies nothing
+//@   loop 1: invariant fresh(result) && result != nil
+//@   loop 2: invariant fresh(result) && result != nil
 //@   ensures err == nil ==> len(data) >= 4 + 16*len(result)
 //@   opt alloc=MaxPointsAlloc
 
@@ -107,7 +114,7 @@ package wkbcommon
 //@   modifies nothing
 //@   ensures err == nil ==> len(data) >= 4 + 21*len(result)
 //@   opt alloc=MaxMultiAlloc
-//@   loop 1: invariant 0 <= i && len(result) == i && len(data) + 21*i + 4 == old(len(data))
+//@   loop 1: invariant 0 <= i && len(result) == i && len(data) + 21*i + 4 == old(len(data)) && fresh(result) && result != nil
 
 //@ func ScanLineString(data) (ls, srid, err)
 //@   modifies nothing
@@ -117,12 +124,13 @@ package wkbcommon
 //@   modifies nothing
 //@   ensures err == nil && len(result) >= 1 ==> len(data) >= 13 + 16*len(result[0])
 //@   opt alloc=MaxMultiAlloc
-//@   loop 1: invariant 0 <= i && len(result) == i && len(data) + 4 <= old(len(data))
+//@   loop 1: invariant 0 <= i && len(result) == i && len(data) + 4 <= old(len(data)) && fresh(result) && result != nil
 //@   loop 1: invariant i >= 1 ==> old(len(data)) >= 13 + 16*len(result[0])
 
 //@ func unmarshalPolygon(order, data) (result, err)
 //@   modifies nothing
 //@   opt alloc=MaxMultiAlloc
+//@   loop 1: invariant fresh(result) && result != nil
 
 // unmarshalMultiPolygon advances by 9 + sum over rings of (4 + 16*len(ring)); keeping that advance in
 // range needs an induction over the ring sum that the generator does not do. It is NOT verified:
